@@ -53,6 +53,14 @@ Judge(rec) ==
             \cup (IF o.pub.class \in {"value", "error"} /\ pre = <<>> /\ d.st = "ok" /\ ~(o.pub.class = "value" /\ NormVal(o.pub.v) = NormVal(ProjD(d.v))) THEN {"pubsame"} ELSE {})
             \cup (IF o.pub.class \in {"value", "error"} /\ pre = <<>> /\ d.st = "fail" /\ o.pub.class # "error" THEN {"pubsame"} ELSE {})
             \cup (IF o.pub.class \in {"value", "error"} /\ pre = <<>> /\ ~ReportOK(o.src, RecN(d.recs), o.pub.report) THEN {"pubreport"} ELSE {})
+            \* ... and twice in a row with map environments differing in the type of an unused name
+            \cup (IF "pub2" \in DOMAIN o /\ o.pub2.class = "panic" THEN {"pubpanic"} ELSE {})
+            \cup (IF "pub2" \in DOMAIN o /\ o.pub2.class = "ran" /\ pre = <<>> /\
+                     \E r \in {o.pub2.a, o.pub2.b} :
+                        \/ d.st = "ok" /\ ~(r.class = "value" /\ NormVal(r.v) = NormVal(ProjD(d.v)))
+                        \/ d.st = "fail" /\ r.class # "error"
+                        \/ ~ReportOK(o.src, RecN(d.recs), r.report)
+                   THEN {"pubsame2"} ELSE {})
 Init == st \in {[c |-> c, l |-> ChunkLo(c, N)] : c \in 1..NChunks}
 Next == /\ st.l <= ChunkHi(st.c, N)
         /\ EmitVerdict(Obs[st.l].id, Judge(Obs[st.l]), "")
